@@ -16,7 +16,7 @@ use rayon::prelude::*;
 use serde_json::{json, Value};
 use std::collections::{BTreeMap, HashSet};
 
-pub const RULE: &str = "for every attribute-taking derive (34) and every position its documentation names (struct / enum / union / variant / field): well-formed attributed items from a per-family grammar model; rewrites (skip<->ignore, bound<->bounds, one attribute with n types <-> n attributes, trailing comma in list positions, permutation of the attributes of one item) must expand Ok and token-equal after sorting top-level items; single-step corruptions (unknown identifier where the grammar cannot read it as a type/expression, duplicated literal / rename_all / repr / try_from(repr), argument meaningless for the item kind, legacy `fmt =` / `bound =` / `types(..)`, contradictions `X`+`not(X)` and `skip`/`ignore`+selector) of an item whose uncorrupted form expands Ok must yield Err or a deliberate panic; a sample of every cell is compiled with the real proc-macro (positive: both spellings compile and a derive-specific probe prints the same; negative: rustc reports a derive diagnostic). Non-trivial = every case (each is a rewrite or a corruption); distinct by (derive, base item, variant item); every (derive, position, kind) cell must reach >= 5 distinct cases";
+pub const RULE: &str = "for every attribute-taking derive (34) and every position its documentation names (struct / enum / union / variant / field): well-formed attributed items from a per-family grammar model; rewrites (skip<->ignore, bound<->bounds, one attribute with n types <-> n attributes, trailing comma in list positions, permutation of the attributes of one item incl. two `bound(..)` attributes and non-integer `#[repr(..)]` hints next to `#[try_from(repr)]`, one `bound(P1, P2)` <-> two attributes) must expand Ok and token-equal after sorting top-level items and the where-predicates of each impl; single-step corruptions (unknown identifier where the grammar cannot read it as a type/expression, duplicated literal / rename_all / repr / try_from(repr), argument meaningless for the item kind, legacy `fmt =` / `bound =` / `types(..)`, contradictions `X`+`not(X)`, `skip`/`ignore`+selector, AsRef struct-level+field-level attribute, Into plain types+wrapped kinds in one attribute, the same Error selector on two fields, an unknown `rename_all` casing) of an item whose uncorrupted form expands Ok must yield Err or a deliberate panic (an internal panic is no diagnostic and is reported); a sample of every cell is compiled with the real proc-macro (positive: both spellings compile and a derive-specific probe prints the same; negative: rustc reports a derive diagnostic). Non-trivial = every case (each is a rewrite or a corruption); distinct by (derive, base item, variant item); every (derive, position, kind) cell must reach >= 5 distinct cases";
 
 // ------------------------------------------------------------------------------------------------
 // model of attributed items
@@ -232,6 +232,12 @@ impl Item {
     }
 }
 
+/// `#[derive(From)] #[from(forward)] enum E { A(i32) }` (also `#[from(<types>)]`): impl/src/from.rs never looks at the
+/// attributes of an enum itself, so the attribute is silently ignored (same expansion as without it) although the
+/// property wants an argument that is meaningless for the item kind to be rejected. Reported as a candidate genuine
+/// defect; the (From, enum, co:item-kind) cell is generated only when this switch is off.
+const AVOID_FROM_ENUM_ATTR: bool = false;
+
 fn lit_tok(s: &str) -> String {
     proc_macro2::Literal::string(s).to_string()
 }
@@ -354,6 +360,8 @@ enum Kind {
     RwNTypes,
     RwTrail,
     RwPerm,
+    /// one `bound(P1, P2)` attribute <-> two attributes `bound(P1)`, `bound(P2)`
+    RwNBound,
     CoUnknown,
     CoDupLit,
     CoDupRename,
@@ -364,6 +372,8 @@ enum Kind {
     CoLegacyBound,
     CoLegacyTypes,
     CoContra,
+    /// the same field selector (`source` / `backtrace`) on two fields of one struct / variant
+    CoDupSel,
 }
 
 impl Kind {
@@ -374,6 +384,7 @@ impl Kind {
             Kind::RwNTypes => "rw:n-types",
             Kind::RwTrail => "rw:trailing-comma",
             Kind::RwPerm => "rw:permutation",
+            Kind::RwNBound => "rw:n-bounds",
             Kind::CoUnknown => "co:unknown",
             Kind::CoDupLit => "co:dup-literal",
             Kind::CoDupRename => "co:dup-rename_all",
@@ -384,10 +395,11 @@ impl Kind {
             Kind::CoLegacyBound => "co:legacy-bound",
             Kind::CoLegacyTypes => "co:legacy-types",
             Kind::CoContra => "co:contradiction",
+            Kind::CoDupSel => "co:dup-selector",
         }
     }
     fn is_rewrite(self) -> bool {
-        matches!(self, Kind::RwSkip | Kind::RwBound | Kind::RwNTypes | Kind::RwTrail | Kind::RwPerm)
+        matches!(self, Kind::RwSkip | Kind::RwBound | Kind::RwNTypes | Kind::RwTrail | Kind::RwPerm | Kind::RwNBound)
     }
 }
 
@@ -428,6 +440,10 @@ fn cells() -> Vec<Cell> {
                 for p in [Struct, Enum, Variant, Union] {
                     add(p, &[RwBound, RwTrail, RwPerm, CoUnknown, CoDupLit, CoLegacyFmt, CoLegacyBound]);
                 }
+                // fmt/mod.rs `ContainerAttributes`: "multiple `#[<attribute>(bound(...))]` are allowed" (they are merged)
+                for p in [Struct, Enum] {
+                    add(p, &[RwNBound]);
+                }
                 if info.name == "Display" {
                     for p in [Struct, Enum, Variant] {
                         add(p, &[CoDupRename]);
@@ -436,8 +452,8 @@ fn cells() -> Vec<Cell> {
             }
             // debug.md: struct / variant: literal; struct / enum: bound(s); field: skip|ignore, literal
             Fam::Debug => {
-                add(Struct, &[RwBound, RwTrail, RwPerm, CoUnknown, CoDupLit, CoLegacyFmt, CoLegacyBound, CoContra]);
-                add(Enum, &[RwBound, RwTrail, RwPerm, CoUnknown, CoKind, CoLegacyBound]);
+                add(Struct, &[RwBound, RwNBound, RwTrail, RwPerm, CoUnknown, CoDupLit, CoLegacyFmt, CoLegacyBound, CoContra]);
+                add(Enum, &[RwBound, RwNBound, RwTrail, RwPerm, CoUnknown, CoKind, CoLegacyBound]);
                 add(Variant, &[RwTrail, RwPerm, CoUnknown, CoDupLit, CoLegacyFmt, CoContra]);
                 add(Field, &[RwSkip, RwTrail, RwPerm, CoUnknown, CoDupLit, CoLegacyFmt, CoContra]);
             }
@@ -445,16 +461,20 @@ fn cells() -> Vec<Cell> {
             Fam::From => {
                 add(Struct, &[RwNTypes, RwTrail, RwPerm, CoLegacyTypes]);
                 add(Variant, &[RwSkip, RwNTypes, RwTrail, RwPerm, CoLegacyTypes, CoContra]);
+                // from.md documents the container attribute for structs only: on an enum it is meaningless
+                if !AVOID_FROM_ENUM_ATTR {
+                    add(Enum, &[CoKind]);
+                }
             }
             // into.md: struct: empty | types | owned/ref/ref_mut[(types)]; field: same + skip|ignore; enums unsupported
             Fam::Into => {
-                add(Struct, &[RwNTypes, RwTrail, RwPerm, CoLegacyTypes]);
-                add(Field, &[RwSkip, RwNTypes, RwTrail, RwPerm, CoLegacyTypes]);
+                add(Struct, &[RwNTypes, RwTrail, RwPerm, CoLegacyTypes, CoContra]);
+                add(Field, &[RwSkip, RwNTypes, RwTrail, RwPerm, CoLegacyTypes, CoContra]);
                 add(Enum, &[CoKind]);
             }
             // as_ref.md / as_mut.md: struct (one field): forward | types; field: empty | skip|ignore | forward | types
             Fam::AsRef => {
-                add(Struct, &[RwNTypes, RwTrail, RwPerm, CoKind]);
+                add(Struct, &[RwNTypes, RwTrail, RwPerm, CoKind, CoContra]);
                 add(Field, &[RwSkip, RwNTypes, RwTrail, RwPerm, CoContra]);
                 add(Enum, &[CoKind]);
             }
@@ -465,7 +485,7 @@ fn cells() -> Vec<Cell> {
             }
             // error.md: field: source, backtrace, not(..), ignore; variant: ignore
             Fam::Error => {
-                add(Field, &[RwTrail, RwPerm, CoUnknown, CoContra]);
+                add(Field, &[RwTrail, RwPerm, CoUnknown, CoContra, CoDupSel]);
                 add(Variant, &[RwPerm, CoUnknown, CoKind]);
                 add(Struct, &[CoKind]);
             }
@@ -507,6 +527,10 @@ enum Need {
     Skip,
     /// a `bound(..)` / `bounds(..)` argument
     Bound,
+    /// a `bound(..)` / `bounds(..)` argument with two predicates
+    Bound2,
+    /// Error: the target field carries the selecting `source` and its struct / variant has >= 2 fields
+    DupSel,
     /// a type list with >= 2 types
     Types2,
     /// an attribute with a list that may take a trailing comma
@@ -531,6 +555,8 @@ fn need_of(c: &Cell) -> Need {
     match c.kind {
         Kind::RwSkip => Need::Skip,
         Kind::RwBound => Need::Bound,
+        Kind::RwNBound => Need::Bound2,
+        Kind::CoDupSel => Need::DupSel,
         Kind::RwNTypes => Need::Types2,
         Kind::RwTrail => Need::List,
         Kind::RwPerm => Need::TwoAttrs,
@@ -541,6 +567,7 @@ fn need_of(c: &Cell) -> Need {
             (Fam::Debug, Pos::Field) => Need::Skip,
             (Fam::Debug, _) => Need::FieldLit,
             (Fam::AsRef, _) | (Fam::From, _) => Need::Marker,
+            (Fam::Into, _) => Need::List,
             _ => Need::Select,
         },
         Kind::CoKind => match c.fam {
@@ -683,11 +710,17 @@ fn gen_lit(d: &mut Dice, vars: &[String], style: LitStyle, int_like: bool) -> Ve
 }
 
 fn gen_bound(d: &mut Dice, generic: bool) -> Arg {
+    gen_bound_n(d, generic, 0)
+}
+
+/// `force` = 0: one or two predicates; otherwise exactly `force` pairwise different predicates
+fn gen_bound_n(d: &mut Dice, generic: bool, force: usize) -> Arg {
     let tr = ["Clone", "Copy", "core::fmt::Debug", "PartialEq", "Send", "Copy + Clone"];
-    let n = d.range(1, 2);
+    let n = if force > 0 { force } else { d.range(1, 2) };
+    let off = d.pick(tr.len());
     let preds: Vec<String> = (0..n)
-        .map(|_| {
-            let t = tr[d.pick(tr.len())];
+        .map(|k| {
+            let t = if force > 0 { tr[(off + k) % tr.len()] } else { tr[d.pick(tr.len())] };
             if generic {
                 format!("T: {t}")
             } else {
@@ -714,7 +747,7 @@ fn fmt_attrs(d: &mut Dice, attr: &str, need: Option<Need>, vars: &[String], styl
     let mut want_rename = allow_rename && d.chance(25);
     let mut want_foreign = d.chance(15);
     match need {
-        Some(Need::Bound) => want_bound = allow_bound,
+        Some(Need::Bound) | Some(Need::Bound2) => want_bound = allow_bound,
         Some(Need::Lit) => want_lit = allow_lit,
         Some(Need::Rename) => want_rename = allow_rename,
         Some(Need::List) => {
@@ -749,7 +782,12 @@ fn fmt_attrs(d: &mut Dice, attr: &str, need: Option<Need>, vars: &[String], styl
         out.push(Attr::with(attr, gen_lit(d, vars, style, int_like)));
     }
     if want_bound {
-        insert_at(&mut out, Attr::with(attr, vec![gen_bound(d, generic)]), d);
+        let force = if need == Some(Need::Bound2) { 2 } else { 0 };
+        insert_at(&mut out, Attr::with(attr, vec![gen_bound_n(d, generic, force)]), d);
+        // a second bound attribute on the same item: "multiple `#[<attribute>(bound(...))]` are allowed" (fmt/mod.rs)
+        if need != Some(Need::Bound2) && d.chance(20) {
+            insert_at(&mut out, Attr::with(attr, vec![gen_bound_n(d, generic, 0)]), d);
+        }
     }
     if want_rename {
         insert_at(&mut out, Attr::with(attr, vec![gen_rename(d)]), d);
@@ -776,7 +814,7 @@ fn gen_display(c: &Cell, pos: Pos, need: Need, d: &mut Dice) -> Option<Gen> {
     let is_display = c.derive == "Display";
     let ptr = c.derive == "Pointer";
     let attr = c.attr;
-    let generic = pos != Pos::Union && (need == Need::Bound && d.chance(70) || d.chance(30));
+    let generic = pos != Pos::Union && (matches!(need, Need::Bound | Need::Bound2) && d.chance(70) || d.chance(30));
     let inst = if ptr { "&'static i32" } else { "i32" };
     let base: Vec<&str> = if ptr {
         vec!["&'static i32"]
@@ -874,7 +912,7 @@ fn gen_display(c: &Cell, pos: Pos, need: Need, d: &mut Dice) -> Option<Gen> {
 /// debug.md — struct / variant: literal; struct / enum: bound(s); field: skip | ignore | literal
 fn gen_debug(c: &Cell, pos: Pos, need: Need, d: &mut Dice) -> Option<Gen> {
     let attr = c.attr;
-    let generic = need == Need::Bound && d.chance(70) || d.chance(30);
+    let generic = matches!(need, Need::Bound | Need::Bound2) && d.chance(70) || d.chance(30);
     let generics = if generic { "<T>".to_string() } else { String::new() };
     let base = ["i32", "String", "u8", "&'static str"];
     let fty = |d: &mut Dice| -> String {
@@ -1444,6 +1482,21 @@ fn gen_tryfrom(c: &Cell, _pos: Pos, need: Need, d: &mut Dice) -> Option<Gen> {
     if need == Need::TwoAttrs && attrs.len() < 2 || d.chance(15) {
         insert_at(&mut attrs, foreign_attr(d), d);
     }
+    // a representation hint that is not an integer type, in an attribute of its own or next to the integer one
+    // (try_from.md: "The type can be changed with a `#[repr(u/i*)]` attribute": any other hint must not change it,
+    // whatever the order of the attributes)
+    if d.chance(35) {
+        let align = Arg::call("align", &[["2", "4", "8"][d.pick(3)]]);
+        let int_at = attrs.iter().position(|a| a.name == "repr");
+        match int_at {
+            Some(i) if d.chance(40) => {
+                let args = attrs[i].args.as_mut().unwrap();
+                let at = d.pick(args.len() + 1);
+                args.insert(at, align);
+            }
+            _ => insert_at(&mut attrs, Attr::with("repr", vec![align]), d),
+        }
+    }
     Some(Gen { item: Item { attrs, name: ENAMES[d.pick(ENAMES.len())].into(), generics: String::new(), body: Body::Enum(vs) }, loc: Loc::Container, e2: true })
 }
 
@@ -1496,7 +1549,14 @@ fn gen_error(c: &Cell, pos: Pos, need: Need, d: &mut Dice, force_struct: bool) -
             fields[0].name = Some("source".into());
         }
         let t = d.pick(n.max(1));
-        let src = if d.chance(50) { Some(d.pick(n.max(1))) } else { None };
+        // (the base of a duplicated selector: the target field is the explicit source)
+        let src = if target == Some(Need::DupSel) {
+            Some(t)
+        } else if d.chance(50) {
+            Some(d.pick(n.max(1)))
+        } else {
+            None
+        };
         let with_bt = d.chance(15);
         for i in 0..n {
             let mut args: Vec<Arg> = vec![];
@@ -1541,7 +1601,7 @@ fn gen_error(c: &Cell, pos: Pos, need: Need, d: &mut Dice, force_struct: bool) -
     let display = Attr::raw("display", "\"e\"");
     if force_struct || (pos == Pos::Field && d.chance(50)) {
         let shape = pick_shape(d, false);
-        let n = d.range(1, 3);
+        let n = if need == Need::DupSel { d.range(2, 3) } else { d.range(1, 3) };
         let (fields, t) = mk(d, shape, n, if pos == Pos::Field { Some(need) } else { None }, &mut e2, &mut used_t);
         let loc = if pos == Pos::Field { Loc::Field(t) } else { Loc::Container };
         return Some(Gen { item: Item { attrs: vec![display], name: SNAMES[d.pick(SNAMES.len())].into(), generics, body: Body::Struct(shape, fields) }, loc, e2 });
@@ -1555,7 +1615,13 @@ fn gen_error(c: &Cell, pos: Pos, need: Need, d: &mut Dice, force_struct: bool) -
         let (vn, sn) = VNAMES[(off + i) % VNAMES.len()];
         let must_fields = (pos == Pos::Field && i == target) || (generic && !used_t && i + 1 == nv);
         let shape = pick_shape(d, !must_fields);
-        let n = if shape == Shape::Unit { 0 } else { d.range(1, 3) };
+        let n = if shape == Shape::Unit {
+            0
+        } else if need == Need::DupSel && pos == Pos::Field && i == target {
+            d.range(2, 3)
+        } else {
+            d.range(1, 3)
+        };
         let (fields, t) = if n == 0 { (vec![], 0) } else { mk(d, shape, n, if pos == Pos::Field && i == target { Some(need) } else { None }, &mut e2, &mut used_t) };
         if i == target {
             floc = t;
@@ -1821,6 +1887,14 @@ fn unknown_word(f: Fam, d: &mut Dice) -> String {
     }
 }
 
+/// the integer type named by a `#[repr(..)]` attribute, if any
+fn int_repr_of(a: &Attr) -> Option<String> {
+    a.args().iter().find_map(|x| match x {
+        Arg::Flag(f) if REPRS.contains(&f.as_str()) => Some(f.clone()),
+        _ => None,
+    })
+}
+
 fn own_indices(attrs: &[Attr], name: &str) -> Vec<usize> {
     attrs.iter().enumerate().filter(|(_, a)| a.name == name).map(|(i, _)| i).collect()
 }
@@ -1886,6 +1960,56 @@ fn apply(c: &Cell, g: &Gen, d: &mut Dice) -> Option<Applied> {
                 }
             }
             None
+        }
+        Kind::RwNBound => {
+            let v = item.attrs_at(loc)?;
+            for i in own_indices(v, attr) {
+                let args = v[i].args().to_vec();
+                if let [Arg::Call(h, inner, _)] = args.as_slice() {
+                    if (h == "bound" || h == "bounds") && inner.len() >= 2 {
+                        let other = if h == "bound" { "bounds" } else { "bound" };
+                        let mixed = d.chance(30);
+                        let split: Vec<Attr> = inner
+                            .iter()
+                            .enumerate()
+                            .map(|(k, p)| Attr::with(attr, vec![Arg::Call(if mixed && k % 2 == 1 { other.to_string() } else { h.clone() }, vec![p.clone()], false)]))
+                            .collect();
+                        v.splice(i..=i, split);
+                        return done(item, if mixed { "one attribute per predicate, mixed bound/bounds" } else { "one attribute per predicate" });
+                    }
+                }
+            }
+            None
+        }
+        Kind::CoDupSel => {
+            let (fields, t) = match (&mut item.body, loc) {
+                (Body::Struct(_, fs), Loc::Field(t)) => (fs, t),
+                (Body::Enum(vs), Loc::VField(vi, fi)) => {
+                    let var = vs.get_mut(vi)?;
+                    // the fields of an ignored variant are not looked at at all (error.md: "ignore ... a whole enum variant completely")
+                    if is_ignored(&var.attrs, attr) {
+                        return None;
+                    }
+                    (&mut var.fields, fi)
+                }
+                _ => return None,
+            };
+            if fields.len() < 2 || t >= fields.len() {
+                return None;
+            }
+            let sels: Vec<&str> = ["source", "backtrace"].into_iter().filter(|s| fields[t].attrs.iter().any(|a| a.name == attr && a.has_flag(s))).collect();
+            if sels.is_empty() {
+                return None;
+            }
+            let sel = sels[d.pick(sels.len())];
+            let others: Vec<usize> = (0..fields.len()).filter(|i| *i != t).collect();
+            let o = others[d.pick(others.len())];
+            let fa = &mut fields[o].attrs;
+            match own_indices(fa, attr).first() {
+                Some(&i) => fa[i].args = Some(vec![Arg::flag(sel)]),
+                None => insert_at(fa, Attr::with(attr, vec![Arg::flag(sel)]), d),
+            }
+            done(item, if sel == "source" { "`source` on two fields" } else { "`backtrace` on two fields" })
         }
         Kind::RwNTypes => {
             let v = item.attrs_at(loc)?;
@@ -1981,7 +2105,18 @@ fn apply(c: &Cell, g: &Gen, d: &mut Dice) -> Option<Applied> {
                 Fam::Display | Fam::Debug => {
                     let bound_ok = c.fam == Fam::Display || matches!(c.pos, Pos::Struct | Pos::Enum);
                     let lit_at = own.iter().copied().find(|i| v[*i].has_lit());
-                    let form = d.pick(4);
+                    // display.md lists the eight casings `rename_all` knows ("can be placed on structs, enums and variants")
+                    let casing_ok = c.derive == "Display" && c.pos != Pos::Union;
+                    let form = d.pick(if casing_ok { 5 } else { 4 });
+                    if form == 4 {
+                        const BAD_CASINGS: [&str; 8] = ["title case", "Title Case", "sentence", "train-case", "dot.case", "snake case", "", "kebab"];
+                        let new = Attr::with(attr, vec![Arg::NameValue("rename_all".into(), lit_tok(BAD_CASINGS[d.pick(BAD_CASINGS.len())]))]);
+                        match own.iter().copied().find(|i| v[*i].args().iter().any(|a| matches!(a, Arg::NameValue(..)))) {
+                            Some(i) => v[i] = new,
+                            None => insert_at(v, new, d),
+                        }
+                        return done(item, "unknown casing value");
+                    }
                     let (new, det): (Attr, &str) = match form {
                         0 => (Attr::raw(attr, &w), "sole argument"),
                         1 if bound_ok => (Attr::raw(attr, &format!("{w}(T: Clone)")), "bound-like list"),
@@ -2073,7 +2208,7 @@ fn apply(c: &Cell, g: &Gen, d: &mut Dice) -> Option<Applied> {
         }
         Kind::CoDupRepr => {
             let v = item.attrs_at(loc)?;
-            let i = own_indices(v, "repr").into_iter().next()?;
+            let i = own_indices(v, "repr").into_iter().find(|i| int_repr_of(&v[*i]).is_some())?;
             let (dup, det) = if d.chance(40) { (v[i].clone(), "same repr twice") } else { (Attr::with("repr", vec![Arg::flag(REPRS[d.pick(REPRS.len())])]), "two reprs") };
             insert_at(v, dup, d);
             done(item, det)
@@ -2095,6 +2230,14 @@ fn apply(c: &Cell, g: &Gen, d: &mut Dice) -> Option<Applied> {
                 }
             }
             (Fam::AsRef | Fam::Into | Fam::Deref | Fam::IntoIter, Pos::Enum) => done(struct_to_enum(&item)?, "attribute on an enum"),
+            (Fam::From, Pos::Enum) => {
+                // defect model of the recorded finding: the container attribute is dropped without a trace, i.e. the
+                // expansion equals that of the same enum without it
+                let e = struct_to_enum(&item)?;
+                let mut pred = e.clone();
+                pred.attrs.retain(|a| a.name != attr);
+                Some(Applied { item: e, detail: "struct-level conversion attribute on an enum".to_string(), predicted: Some((pred, "c17-from-container-attribute-on-enum-ignored")) })
+            }
             (Fam::TryFrom, Pos::Struct) => {
                 item.attrs.retain(|a| a.name != "repr");
                 item.body = if d.chance(50) { Body::Struct(Shape::Unit, vec![]) } else { Body::Struct(Shape::Tuple, vec![mk_field(None, "i32", "i32")]) };
@@ -2209,6 +2352,18 @@ fn apply(c: &Cell, g: &Gen, d: &mut Dice) -> Option<Applied> {
             Fam::AsRef => {
                 let skip = Attr::with(attr, vec![Arg::flag(if d.chance(50) { "skip" } else { "ignore" })]);
                 let Body::Struct(_, fields) = &mut item.body else { return None };
+                if loc == Loc::Container {
+                    // as/mod.rs: "`#[as_ref(...)]` cannot be placed on both struct and its field"
+                    let f = fields.first_mut()?;
+                    let (fa, det) = match d.pick(4) {
+                        0 => (Attr::bare(attr), "struct-level attribute and bare field attribute"),
+                        1 => (Attr::with(attr, vec![Arg::flag("forward")]), "struct-level attribute and field `forward`"),
+                        2 => (Attr::with(attr, vec![Arg::Ty(f.ty.clone())]), "struct-level attribute and field type list"),
+                        _ => (skip, "struct-level attribute and field skip"),
+                    };
+                    insert_at(&mut f.attrs, fa, d);
+                    return done(item, det);
+                }
                 let Loc::Field(t) = loc else { return None };
                 if d.chance(60) || fields.len() < 2 {
                     insert_at(&mut fields[t].attrs, skip, d);
@@ -2225,6 +2380,32 @@ fn apply(c: &Cell, g: &Gen, d: &mut Dice) -> Option<Applied> {
                 let v = item.attrs_at(loc)?;
                 insert_at(v, Attr::with(attr, vec![Arg::flag(if d.chance(50) { "skip" } else { "ignore" })]), d);
                 done(item, "skip and marker on the same variant")
+            }
+            Fam::Into => {
+                // into.rs: "mixing regular types with wrapped into `owned`/`ref`/`ref_mut` is not allowed" (one attribute)
+                let v = item.attrs_at(loc)?;
+                let kinds = ["owned", "ref", "ref_mut"];
+                let is_wrapped = |a: &Arg| matches!(a, Arg::Flag(f) | Arg::Call(f, _, _) if kinds.contains(&f.as_str()));
+                let i = own_indices(v, attr).into_iter().find(|i| {
+                    let args = v[*i].args();
+                    !args.is_empty() && (args.iter().all(|a| matches!(a, Arg::Ty(_))) || args.iter().all(is_wrapped))
+                })?;
+                let mut args = v[i].args().to_vec();
+                let plain = matches!(args[0], Arg::Ty(_));
+                let (new, det) = if plain {
+                    let k = kinds[d.pick(3)];
+                    if d.chance(50) {
+                        (Arg::flag(k), "type list and bare reference kind in one attribute")
+                    } else {
+                        (Arg::Call(k.into(), vec![["i64", "u8", "String"][d.pick(3)].into()], false), "type list and wrapped type in one attribute")
+                    }
+                } else {
+                    (Arg::Ty(["i64", "u8", "String", "(i32, i64)"][d.pick(4)].into()), "reference kinds and a plain type in one attribute")
+                };
+                let at = d.pick(args.len() + 1);
+                args.insert(at, new);
+                v[i].args = Some(args);
+                done(item, det)
             }
             Fam::Debug if c.pos == Pos::Field => {
                 let v = item.attrs_at(loc)?;
@@ -2290,6 +2471,59 @@ struct Case {
     detail: String,
     predicted: Option<(String, &'static str)>,
     e2: Option<E2Src>,
+    /// input classes of the case (evidence labels `class:..`, see `CLASS_FLOORS`)
+    classes: Vec<&'static str>,
+}
+
+/// input classes that a quick run must contain at least this often (otherwise the run is inconclusive)
+const CLASS_FLOORS: [(&str, u64); 8] = [
+    ("class:two-bound-attributes-on-one-item", 100),
+    ("class:bound-split-over-attributes", 100),
+    ("class:try_from-non-integer-repr-hint", 100),
+    ("class:display-unknown-casing-value", 20),
+    ("class:as_ref-struct-and-field-attribute", 30),
+    ("class:into-plain-and-wrapped-in-one-attribute", 50),
+    ("class:error-selector-on-two-fields", 50),
+    ("class:permutation-of-two-own-attributes", 100),
+];
+
+fn classes_of(c: &Cell, base: &Item, loc: Loc, detail: &str) -> Vec<&'static str> {
+    let mut v = vec![];
+    let at = base.attrs_ref(loc);
+    let bound_attrs = |a: &[Attr]| a.iter().filter(|x| x.name == c.attr && x.has_call(&["bound", "bounds"])).count();
+    let any_two_bounds = bound_attrs(&base.attrs) >= 2
+        || match &base.body {
+            Body::Enum(vs) => vs.iter().any(|x| bound_attrs(&x.attrs) >= 2),
+            _ => false,
+        };
+    if any_two_bounds {
+        v.push("class:two-bound-attributes-on-one-item");
+    }
+    if c.kind == Kind::RwNBound {
+        v.push("class:bound-split-over-attributes");
+    }
+    if c.fam == Fam::TryFrom && base.attrs.iter().any(|a| a.name == "repr" && a.has_call(&["align"])) {
+        v.push("class:try_from-non-integer-repr-hint");
+    }
+    if detail == "unknown casing value" {
+        v.push("class:display-unknown-casing-value");
+    }
+    if c.fam == Fam::AsRef && c.kind == Kind::CoContra && c.pos == Pos::Struct {
+        v.push("class:as_ref-struct-and-field-attribute");
+    }
+    if c.fam == Fam::Into && c.kind == Kind::CoContra {
+        v.push("class:into-plain-and-wrapped-in-one-attribute");
+    }
+    if c.kind == Kind::CoDupSel {
+        v.push("class:error-selector-on-two-fields");
+    }
+    if c.fam == Fam::From && c.kind == Kind::CoKind && c.pos == Pos::Enum {
+        v.push("class:from-container-attribute-on-enum");
+    }
+    if c.kind == Kind::RwPerm && own_indices(at, c.attr).len() >= 2 {
+        v.push("class:permutation-of-two-own-attributes");
+    }
+    v
 }
 
 /// position the *base* item is generated for (differs from the cell's position for `co:item-kind`,
@@ -2299,7 +2533,7 @@ fn base_pos(c: &Cell) -> Pos {
         return c.pos;
     }
     match (c.fam, c.pos) {
-        (Fam::AsRef | Fam::Into | Fam::Deref | Fam::IntoIter, Pos::Enum) => Pos::Struct,
+        (Fam::AsRef | Fam::Into | Fam::Deref | Fam::IntoIter | Fam::From, Pos::Enum) => Pos::Struct,
         (Fam::TryFrom | Fam::Unwrap | Fam::TryInto, Pos::Struct) => Pos::Enum,
         _ => c.pos,
     }
@@ -2314,9 +2548,10 @@ fn build_case(c: &Cell, d: &mut Dice) -> Option<Case> {
         cell: *c,
         base: g.item.render(),
         variant: a.item.render(),
-        detail: a.detail,
         predicted: a.predicted.map(|(i, m)| (i.render(), m)),
         e2,
+        classes: classes_of(c, &g.item, g.loc, &a.detail),
+        detail: a.detail,
     })
 }
 
@@ -2324,7 +2559,21 @@ fn build_case(c: &Cell, d: &mut Dice) -> Option<Case> {
 fn norm_ts(ts: &proc_macro2::TokenStream) -> String {
     match syn::parse2::<syn::File>(ts.clone()) {
         Ok(f) => {
-            let mut v: Vec<String> = f.items.iter().map(|i| tok::ts_string(i)).collect();
+            // (the order of the where-predicates of an impl is not behaviour either: two `bound(..)` attributes may be
+            // written in any order)
+            let one = |i: &syn::Item| -> String {
+                if let syn::Item::Impl(im) = i {
+                    let mut im = im.clone();
+                    if let Some(w) = &mut im.generics.where_clause {
+                        let mut ps: Vec<syn::WherePredicate> = w.predicates.iter().cloned().collect();
+                        ps.sort_by_key(|p| tok::ts_string(p));
+                        w.predicates = ps.into_iter().collect();
+                    }
+                    return tok::ts_string(&im);
+                }
+                tok::ts_string(i)
+            };
+            let mut v: Vec<String> = f.items.iter().map(one).collect();
             v.sort();
             v.join("\n")
         }
@@ -2393,7 +2642,14 @@ fn eval_e1(derive: &str, rewrite: bool, base: &str, variant: &str, predicted: Op
             if dm::is_deliberate(&p) {
                 Verdict::Pass("deliberate_panic")
             } else {
-                Verdict::Pass("internal_panic") // rejected, though not gracefully: the business of C18
+                // "makes the derive fail with a diagnostic": an index / unwrap / unreachable failure is no diagnostic
+                // (that it is an internal failure at all is C18's subject; that the user gets no message is this one's)
+                Verdict::Bad {
+                    what: "corrupted attribute is rejected by an internal panic instead of a diagnostic".into(),
+                    expected: "a diagnostic (derive error or deliberate panic with a message)".into(),
+                    observed: format!("panic at {}:{}: {}", p.file, p.line, p.msg),
+                    sig: None,
+                }
             }
         }
         Outcome::Ok(ts) => {
@@ -2613,7 +2869,7 @@ fn probe(c: &Cell, item: &Item, loc: Loc) -> String {
             }
         }
         Fam::TryFrom => {
-            let repr = item.attrs.iter().find(|a| a.name == "repr").and_then(|a| single_flag(a).map(|s| s.to_string())).unwrap_or("isize".into());
+            let repr = item.attrs.iter().filter(|a| a.name == "repr").find_map(int_repr_of).unwrap_or("isize".into());
             line(format!("for i in 0..16 {{ s += &format!(\"{{}}|\", {name}::try_from(i as {repr}).is_ok()); }}"));
         }
         Fam::Error => {
@@ -2856,15 +3112,164 @@ fn legacy_duplicates(rep: &mut Report) {
     }
 }
 
+// ------------------------------------------------------------------------------------------------
+// supplementary, fully enumerated sub-check: every parameter word the legacy meta-style parser knows, on every position
+// of every derive using it. Where the position's allow-list (the `AttrParams { enum_, variant, struct_, field }` of the
+// derive; fields of variants are parsed with the `field` list) does not contain the word the derive answers "Attribute
+// parameter not supported. Supported attribute parameters are: .." / "Attribute is not allowed here" today: the word is
+// meaningless for that position and must stay rejected. Where the documentation names the word for the position it must
+// not be answered with that diagnostic.
+
+struct Misplaced {
+    derive: &'static str,
+    pos: &'static str,
+    /// item with `@` where the attribute goes
+    template: &'static str,
+    /// words the position accepts (transcribed from the allow-lists of impl/src/*.rs)
+    allowed: &'static [&'static str],
+    /// the subset impl/doc/*.md names for this position
+    documented: &'static [&'static str],
+}
+
+const PARAM_WORDS: [&str; 11] = ["ignore", "forward", "owned", "ref", "ref_mut", "source", "backtrace", "skip", "types", "repr", "bound"];
+const REFS: &[&str] = &["ignore", "owned", "ref", "ref_mut"];
+
+fn misplaced_rows() -> Vec<Misplaced> {
+    let mut v = vec![];
+    let mut row = |derive: &'static str, pos: &'static str, template: &'static str, allowed: &'static [&'static str], documented: &'static [&'static str]| {
+        v.push(Misplaced { derive, pos, template, allowed, documented })
+    };
+    // try_into.md: enum, variant: owned, ref, ref_mut; variant: ignore
+    row("TryInto", "enum", "@ enum E { A(i32), B(u8) }", REFS, &["owned", "ref", "ref_mut"]);
+    row("TryInto", "variant", "enum E { @ A(i32), B(u8) }", REFS, REFS);
+    row("TryInto", "variant-field", "enum E { A(@ i32), B(u8) }", &["ignore"], &[]);
+    // unwrap.md / try_unwrap.md: enum, variant: ref, ref_mut; variant: ignore
+    for d in ["Unwrap", "TryUnwrap"] {
+        row(d, "enum", "@ enum E { A(i32), B }", REFS, &["ref", "ref_mut"]);
+        row(d, "variant", "enum E { @ A(i32), B }", REFS, &["ignore", "ref", "ref_mut"]);
+        row(d, "variant-field", "enum E { A(@ i32), B }", &["ignore"], &[]);
+    }
+    // is_variant.md: variant: ignore
+    row("IsVariant", "enum", "@ enum E { A(i32), B }", &["ignore"], &[]);
+    row("IsVariant", "variant", "enum E { @ A(i32), B }", &["ignore"], &["ignore"]);
+    row("IsVariant", "variant-field", "enum E { A(@ i32), B }", &["ignore"], &[]);
+    // into_iterator.md: struct / field: owned, ref, ref_mut; field: ignore
+    row("IntoIterator", "struct", "@ struct S(Vec<i32>);", REFS, &["owned", "ref", "ref_mut"]);
+    row("IntoIterator", "field", "struct S { @ a: Vec<i32>, #[into_iterator(ignore)] b: u8 }", REFS, &["owned", "ref", "ref_mut"]);
+    // deref.md / deref_mut.md: struct: forward; field: ignore, forward
+    row("Deref", "struct", "@ struct S(Box<i32>);", &["ignore", "forward"], &["forward"]);
+    row("Deref", "field", "struct S { @ a: Box<i32>, #[deref(ignore)] b: u8 }", &["ignore", "forward"], &["forward"]);
+    row("DerefMut", "struct", "@ struct S(Box<i32>);", &["ignore", "forward"], &["forward"]);
+    row("DerefMut", "field", "struct S { @ a: Box<i32>, #[deref_mut(ignore)] b: u8 }", &["ignore", "forward"], &["forward"]);
+    // index.md / index_mut.md: field: ignore
+    row("Index", "struct", "@ struct S(Vec<i32>);", &["ignore"], &[]);
+    row("Index", "field", "struct S { a: Vec<i32>, @ b: u8 }", &["ignore"], &["ignore"]);
+    row("IndexMut", "struct", "@ struct S(Vec<i32>);", &["ignore"], &[]);
+    row("IndexMut", "field", "struct S { a: Vec<i32>, @ b: u8 }", &["ignore"], &["ignore"]);
+    // mul.md / mul_assign.md: struct: forward (the Mul-like derives also take it on an enum)
+    for d in ["Mul", "Div", "Rem", "Shr", "Shl"] {
+        row(d, "struct", "@ struct S(i32);", &["forward"], &["forward"]);
+        row(d, "field", "struct S(@ i32, i32);", &[], &[]);
+        row(d, "enum", "@ enum E { A(i32), B(i32) }", &["forward"], &[]);
+        row(d, "variant", "#[ATTR(forward)] enum E { @ A(i32), B(i32) }", &[], &[]);
+        row(d, "variant-field", "#[ATTR(forward)] enum E { A(@ i32), B(i32) }", &[], &[]);
+    }
+    for d in ["MulAssign", "DivAssign", "RemAssign", "ShrAssign", "ShlAssign"] {
+        row(d, "struct", "@ struct S(i32);", &["forward"], &["forward"]);
+        row(d, "field", "struct S(@ i32, i32);", &[], &[]);
+    }
+    // error.md: field: source, backtrace, ignore; variant: ignore
+    row("Error", "struct", "@ struct S { source: E1 }", &["ignore"], &[]);
+    row("Error", "enum", "@ enum E { A { source: E1 }, B }", &["ignore"], &[]);
+    row("Error", "variant", "enum E { @ A { source: E1 }, B }", &["ignore"], &["ignore"]);
+    row("Error", "field", "struct S { @ a: E1, b: u8 }", &["ignore", "source", "backtrace"], &["ignore", "source", "backtrace"]);
+    row("Error", "variant-field", "enum E { A { @ a: E1, b: u8 }, B }", &["ignore", "source", "backtrace"], &["ignore", "source", "backtrace"]);
+    v
+}
+
+fn misplaced_parameters(rep: &mut Report) {
+    const POSITION_DIAGNOSTICS: [&str; 4] = ["Attribute parameter not supported", "Attribute is not allowed here", "Attribute nested parameter not supported", "Attribute doesn't support"];
+    for r in misplaced_rows() {
+        let Some(dv) = Derive::by_name(r.derive) else { continue };
+        let attr = dv.info().attr.unwrap_or("");
+        let tmpl = r.template.replace("ATTR", attr);
+        // the template itself is sound: it expands without the attribute or with a word allowed at the position
+        let base_ok = std::iter::once(String::new()).chain(r.allowed.iter().map(|w| format!("#[{attr}({w})]"))).any(|a| matches!(dm::expand_src(dv, &tmpl.replace('@', &a)), Ok(Outcome::Ok(_))));
+        if !base_ok {
+            rep.infra_errors.push(format!("misplaced-parameter table: template `{tmpl}` for {} is not accepted with any allowed word", r.derive));
+            continue;
+        }
+        let mut forms: Vec<(String, bool, bool)> = vec![];
+        for w in PARAM_WORDS {
+            forms.push((w.to_string(), r.allowed.contains(&w), r.documented.contains(&w)));
+        }
+        for w in ["forward", "source", "backtrace"] {
+            // `not(w)`: understood wherever `w` is
+            forms.push((format!("not({w})"), r.allowed.contains(&w), false));
+        }
+        for (form, allowed, documented) in forms {
+            let variant = tmpl.replace('@', &format!("#[{attr}({form})]"));
+            let base = tmpl.replace('@', "");
+            rep.evidence.eval(1);
+            rep.evidence.label("kind:co:misplaced-parameter");
+            rep.evidence.label(&format!("position:{}", r.pos));
+            rep.evidence.nontrivial(&format!("{}|{variant}", r.derive));
+            let out = match dm::expand_src(dv, &variant) {
+                Ok(o) => o,
+                Err(e) => {
+                    rep.infra_errors.push(format!("misplaced-parameter table: `{variant}` does not parse: {e}"));
+                    continue;
+                }
+            };
+            let mut bad: Option<(String, String, String)> = None;
+            if !allowed {
+                rep.evidence.label("class:known-parameter-on-a-position-that-does-not-take-it");
+                match &out {
+                    Outcome::Err(_) => {}
+                    Outcome::Panic(p) if dm::is_deliberate(p) => {}
+                    Outcome::Panic(p) => bad = Some(("parameter misplaced on this position is rejected by an internal panic instead of a diagnostic".into(), "a diagnostic".into(), format!("panic at {}:{}: {}", p.file, p.line, p.msg))),
+                    Outcome::Ok(ts) => {
+                        bad = Some((
+                            "a parameter the family knows is accepted on a position that does not take it".into(),
+                            format!("a diagnostic: `{form}` is not among the parameters of the {} position ({})", r.pos, if r.allowed.is_empty() { "none".to_string() } else { r.allowed.join(", ") }),
+                            format!("expands Ok: {}", tok::norm(&ts.to_string()).chars().take(500).collect::<String>()),
+                        ))
+                    }
+                }
+            } else if documented {
+                rep.evidence.label("class:documented-parameter-on-its-position");
+                if let Outcome::Err(e) = &out {
+                    let m = e.to_string();
+                    if POSITION_DIAGNOSTICS.iter().any(|d| m.contains(d)) {
+                        bad = Some(("a documented parameter is refused on the position the documentation names for it".into(), "accepted".into(), format!("derive error: {m}")));
+                    }
+                }
+            } else {
+                rep.evidence.label("class:undocumented-parameter-the-position-accepts(not judged)");
+            }
+            if let Some((what, expected, observed)) = bad {
+                rep.violations.push(Violation {
+                    sig: None,
+                    summary: format!("{what} [{} / {} / co:misplaced-parameter]: `{variant}`", r.derive, r.pos),
+                    case: json!({"derive": r.derive, "base": base, "variant": variant, "misplaced": {"allowed": allowed, "documented": documented}}),
+                    expected,
+                    observed,
+                });
+            }
+        }
+    }
+}
+
 pub fn run(ctx: &Ctx) -> Report {
     let mut rep = Report::new(RULE);
     rep.evidence.max_samples = 12;
     rep.evidence.assumptions = vec![
         "the documented attribute language per derive and position is the one transcribed in DESIGN.md Appendix A from impl/doc/*.md; positions the documentation does not name are out of scope".into(),
         "token equality is taken after sorting the top-level items of the expansion (impl order is not behaviour)".into(),
-        "a corruption rejected by an internal (non-deliberate) panic counts as rejected here; totality is C18's subject".into(),
+        "a corruption must be rejected by a diagnostic (syn::Error or an explicit panic!/assert! with a message); an internal panic (index, unwrap, unreachable) is reported".into(),
     ];
     legacy_duplicates(&mut rep);
+    misplaced_parameters(&mut rep);
     let cells = cells();
     let (per_cell, rounds) = ctx.tier.pick((100usize, 1u32), (500, 4));
     let e2_per_cell = ctx.tier.pick(2usize, 4);
@@ -2924,6 +3329,9 @@ pub fn run(ctx: &Ctx) -> Report {
             rep.evidence.label(&format!("kind:{}", cell.kind.name()));
             rep.evidence.label(&format!("position:{}", cell.pos.name()));
             rep.evidence.label(&format!("detail:{}:{}", cell.kind.name(), case.detail));
+            for cl in &case.classes {
+                rep.evidence.label(cl);
+            }
             if rep.evidence.evaluations % 1499 == 1 {
                 rep.evidence.sample(case_json(&case));
             }
@@ -2946,6 +3354,12 @@ pub fn run(ctx: &Ctx) -> Report {
     rep.evidence.set("generator_reject_samples", json!(reject_samples));
     rep.evidence.set("generator_miss_cells", json!(misses));
     rep.evidence.set("generator_misses", json!(misses.values().sum::<u64>()));
+    for (cl, min) in CLASS_FLOORS {
+        let n = rep.evidence.labels.get(cl).copied().unwrap_or(0);
+        if n < min {
+            rep.infra_errors.push(format!("generator distribution: input class `{cl}` occurs {n} times, floor {min}"));
+        }
+    }
     if !low.is_empty() {
         rep.infra_errors.push(format!("generator distribution: cells below the floor of 5 distinct cases: {}", low.join("; ")));
     }
@@ -3093,6 +3507,19 @@ pub fn replay(ctx: &Ctx, case: &Value) -> Report {
         rep.infra_errors.push("replay case needs derive, base, variant".into());
         return rep;
     };
+    if case["misplaced"].is_object() {
+        let (allowed, documented) = (case["misplaced"]["allowed"].as_bool().unwrap_or(false), case["misplaced"]["documented"].as_bool().unwrap_or(false));
+        if let Some(dv) = Derive::by_name(derive) {
+            match dm::expand_src(dv, variant) {
+                Ok(Outcome::Ok(_)) if !allowed => rep.violations.push(Violation { sig: None, summary: format!("a parameter the family knows is accepted on a position that does not take it: `{variant}`"), case: case.clone(), expected: "a diagnostic".into(), observed: "expands Ok".into() }),
+                Ok(Outcome::Panic(p)) if !allowed && !dm::is_deliberate(&p) => rep.violations.push(Violation { sig: None, summary: format!("misplaced parameter is rejected by an internal panic: `{variant}`"), case: case.clone(), expected: "a diagnostic".into(), observed: p.msg.clone() }),
+                Ok(Outcome::Err(e)) if allowed && documented && e.to_string().contains("Attribute") => rep.violations.push(Violation { sig: None, summary: format!("a documented parameter is refused on its position: `{variant}`"), case: case.clone(), expected: "accepted".into(), observed: e.to_string() }),
+                Ok(_) => {}
+                Err(e) => rep.infra_errors.push(e),
+            }
+        }
+        return rep;
+    }
     let rewrite = case["rewrite"].as_bool().unwrap_or(false);
     let pred = case["predicted"].as_array().and_then(|a| Some((a.first()?.as_str()?, a.get(1)?.as_str()?)));
     match eval_e1(derive, rewrite, base, variant, pred) {
